@@ -15,6 +15,7 @@ const c15Explanation = `Decided statically on every path of xfr.go (and the send
 func checkC15(c *Ctx, r *Report) {
 	r.Explanation = c15Explanation
 	r.Trusted = []string{"go/ssa translation"}
+	borrow(c, r, func(c *Ctx, r *Report) { readErrorKept(c, r, "C12.R1.read-error-kept") }, "C12.R1.read-error-kept", "C15.R1.read-error-kept", 1, "the error of Transfer.ReadMsg's read flows into the error it returns with the message", nil, "a transfer whose connection is cut at a record boundary of the last envelope is reported complete")
 	for _, name := range []string{"Transfer.inAxfr", "Transfer.inIxfr"} {
 		c15Loop(c, r, name)
 	}
